@@ -5,7 +5,7 @@ Import ListNotations.
 Open Scope string_scope.
 
 
-(* saml2/sigver.py:SecurityContext.correctly_signed_response, lines 1679-1706 *)
+(* saml2/sigver.py:SecurityContext.correctly_signed_response, lines 1684-1711 *)
 Definition src2_correctly_signed_response (parse_resp : pyval -> pyval) (check_sig : pyval -> pyval -> pyval -> pyval -> pyval) (class_name_ext : pyval -> pyval) (v_self : pyval) (v_decoded_xml : pyval) (v_must : pyval) (v_origdoc : pyval) (v_only_valid_cert : pyval) (v_require_response_signature : pyval) (v_kwargs : pyval) : pyval :=
   let v_response := PErr in
   (py_bind (py_bind v_decoded_xml (fun a_1 => (parse_resp a_1))) (fun v_response =>
@@ -143,41 +143,54 @@ Definition src2_authn_response_init (status_response_init : pyval -> pyval) (v_s
    | BErr => PErr
    end)))))))))))).
 
-(* saml2/client_base.py:Base.__init__, lines 142-195 *)
+(* saml2/client_base.py:Base.__init__, lines 142-203 *)
 Definition src2_base_init (entity_init : pyval -> pyval) (population : pyval -> pyval) (lock : pyval) (cfg_getattr : pyval -> pyval -> pyval -> pyval) (v_self : pyval) (v_config : pyval) (v_identity_cache : pyval) (v_state_cache : pyval) (v_virtual_organization : pyval) (v_config_file : pyval) (v_msg_cb : pyval) : pyval :=
   let v_attribute_defaults := PErr in
   let v_val_config := PErr in
   let v_val := PErr in
+  let v_word := PErr in
   let v_warn_msg := PErr in
-  (py_bindh (fun n_41 => (PList [(PExc n_41); v_self])) (py_bind v_self (fun a_1 => (py_bind v_config (fun a_2 => (py_bind v_config_file (fun a_3 => (py_bind v_virtual_organization (fun a_4 => (py_bind v_msg_cb (fun a_5 => (entity_init (PList [a_1; (PStr "sp"); a_2; a_3; a_4; a_5])))))))))))) (fun _ =>
-   (py_bindh (fun n_40 => (PList [(PExc n_40); v_self])) (py_bind v_identity_cache (fun a_6 => (population a_6))) (fun a_7 =>
-   (py_bindh (fun n_39 => (PList [(PExc n_39); v_self])) (p2_setattr v_self "users" a_7) (fun v_self =>
-   (py_bindh (fun n_38 => (PList [(PExc n_38); v_self])) lock (fun a_8 =>
-   (py_bindh (fun n_37 => (PList [(PExc n_37); v_self])) (p2_setattr v_self "lock" a_8) (fun v_self =>
-   (let k_36 := fun v_self =>
-    (py_bindh (fun n_30 => (PList [(PExc n_30); v_self])) (p2_mkdict [("logout_requests_signed", (PBool false)); ("logout_responses_signed", (PBool false)); ("allow_unsolicited", (PBool false)); ("authn_requests_signed", (PBool false)); ("want_assertions_signed", (PBool false)); ("want_response_signed", (PBool true)); ("want_assertions_or_response_signed", (PBool false))]) (fun v_attribute_defaults =>
-    (py_bindh (fun n_29 => (PList [(PExc n_29); v_self])) (p2_iter_check (p2_items v_attribute_defaults)) (fun it_13 =>
-    (match pyfor2 (py_iter2 it_13) [v_val_config; v_val; v_self] (fun st_14 x_15 => match st_14 with [v_val_config; v_val; v_self] =>
+  (py_bindh (fun n_44 => (PList [(PExc n_44); v_self])) (py_bind v_self (fun a_1 => (py_bind v_config (fun a_2 => (py_bind v_config_file (fun a_3 => (py_bind v_virtual_organization (fun a_4 => (py_bind v_msg_cb (fun a_5 => (entity_init (PList [a_1; (PStr "sp"); a_2; a_3; a_4; a_5])))))))))))) (fun _ =>
+   (py_bindh (fun n_43 => (PList [(PExc n_43); v_self])) (py_bind v_identity_cache (fun a_6 => (population a_6))) (fun a_7 =>
+   (py_bindh (fun n_42 => (PList [(PExc n_42); v_self])) (p2_setattr v_self "users" a_7) (fun v_self =>
+   (py_bindh (fun n_41 => (PList [(PExc n_41); v_self])) lock (fun a_8 =>
+   (py_bindh (fun n_40 => (PList [(PExc n_40); v_self])) (p2_setattr v_self "lock" a_8) (fun v_self =>
+   (let k_39 := fun v_self =>
+    (py_bindh (fun n_33 => (PList [(PExc n_33); v_self])) (p2_mkdict [("logout_requests_signed", (PBool false)); ("logout_responses_signed", (PBool false)); ("allow_unsolicited", (PBool false)); ("authn_requests_signed", (PBool false)); ("want_assertions_signed", (PBool false)); ("want_response_signed", (PBool true)); ("want_assertions_or_response_signed", (PBool false))]) (fun v_attribute_defaults =>
+    (py_bindh (fun n_32 => (PList [(PExc n_32); v_self])) (p2_iter_check (p2_items v_attribute_defaults)) (fun it_13 =>
+    (match pyfor2 (py_iter2 it_13) [v_val_config; v_val; v_word; v_self] (fun st_14 x_15 => match st_14 with [v_val_config; v_val; v_word; v_self] =>
      (match p2_unpack 2 x_15 with
-     | PList [v_attr; v_val_default] => (py_bindS (fun n_27 => (ExcS n_27 [v_val_config; v_val; v_self])) (py_bind v_attr (fun a_18 => (cfg_getattr v_self a_18 (PStr "sp")))) (fun v_val_config =>
-     (py_bindS (fun n_26 => (ExcS n_26 [v_val_config; v_val; v_self])) (p2_ifexp (p2_is_not_none v_val_config) v_val_config v_val_default) (fun v_val =>
-     (let k_25 := fun v_val =>
-      (py_bindS (fun n_23 => (ExcS n_23 [v_val_config; v_val; v_self])) v_attr (fun a_19 =>
-      (py_bindS (fun n_22 => (ExcS n_22 [v_val_config; v_val; v_self])) v_val (fun a_20 =>
-      (py_bindS (fun n_21 => (ExcS n_21 [v_val_config; v_val; v_self])) (p2_setattr_dyn v_self a_19 a_20) (fun v_self =>
-      (NextS [v_val_config; v_val; v_self]))))))) in
-     (match p2_branch (p2_eq v_val (PStr "true")) with
+     | PList [v_attr; v_val_default] => (py_bindS (fun n_30 => (ExcS n_30 [v_val_config; v_val; v_word; v_self])) (py_bind v_attr (fun a_18 => (cfg_getattr v_self a_18 (PStr "sp")))) (fun v_val_config =>
+     (py_bindS (fun n_29 => (ExcS n_29 [v_val_config; v_val; v_word; v_self])) (p2_ifexp (p2_is_not_none v_val_config) v_val_config v_val_default) (fun v_val =>
+     (let k_28 := fun v_word v_val =>
+      (py_bindS (fun n_23 => (ExcS n_23 [v_val_config; v_val; v_word; v_self])) v_attr (fun a_19 =>
+      (py_bindS (fun n_22 => (ExcS n_22 [v_val_config; v_val; v_word; v_self])) v_val (fun a_20 =>
+      (py_bindS (fun n_21 => (ExcS n_21 [v_val_config; v_val; v_word; v_self])) (p2_setattr_dyn v_self a_19 a_20) (fun v_self =>
+      (NextS [v_val_config; v_val; v_word; v_self]))))))) in
+     (match p2_branch (p2_isinstance v_val ["str"] []) with
+     | BTrue => (py_bindS (fun n_27 => (ExcS n_27 [v_val_config; v_val; v_word; v_self])) (p2_lower (p2_strip v_val)) (fun v_word =>
+     (match p2_branch (p2_in v_word (p2_mklist [(PStr "true"); (PStr "yes"); (PStr "on"); (PStr "1")])) with
      | BTrue => (let v_val := (PBool true) in
-     (k_25 v_val))
-     | BFalse => (k_25 v_val)
-     | BExc n_25 => (ExcS n_25 [v_val_config; v_val; v_self])
+     (k_28 v_word v_val))
+     | BFalse => (match p2_branch (p2_in v_word (p2_mklist [(PStr "false"); (PStr "no"); (PStr "off"); (PStr "0"); (PStr "")])) with
+     | BTrue => (let v_val := (PBool false) in
+     (k_28 v_word v_val))
+     | BFalse => (ExcS "SAMLError" [v_val_config; v_val; v_word; v_self])
+     | BExc n_25 => (ExcS n_25 [v_val_config; v_val; v_word; v_self])
+     | BErr => (RetS PErr)
+     end)
+     | BExc n_26 => (ExcS n_26 [v_val_config; v_val; v_word; v_self])
+     | BErr => (RetS PErr)
+     end)))
+     | BFalse => (k_28 v_word v_val)
+     | BExc n_28 => (ExcS n_28 [v_val_config; v_val; v_word; v_self])
      | BErr => (RetS PErr)
      end))))))
-     | PExc n_28 => (ExcS n_28 [v_val_config; v_val; v_self])
+     | PExc n_31 => (ExcS n_31 [v_val_config; v_val; v_word; v_self])
      | _ => (RetS PErr)
      end)
     | _ => RetS PErr end) with
-    | NextS st_14 => match st_14 with [v_val_config; v_val; v_self] => (let k_11 := fun v_warn_msg =>
+    | NextS st_14 => match st_14 with [v_val_config; v_val; v_word; v_self] => (let k_11 := fun v_warn_msg =>
      (py_bindh (fun n_9 => (PList [(PExc n_9); v_self])) (p2_setattr v_self "artifact2response" (PObj [])) (fun v_self =>
      (PList [PNone; v_self]))) in
     (match p2_branch (p2_and (p2_eq (p2_attr v_self "entity_type") (PStr "sp")) (p2_not (p2_any (p2_mklist [(p2_attr v_self "want_assertions_signed"); (p2_attr v_self "want_response_signed"); (p2_attr v_self "want_assertions_or_response_signed")]) ktrue kid))) with
@@ -189,14 +202,14 @@ Definition src2_base_init (entity_init : pyval -> pyval) (population : pyval -> 
     end)) | _ => PErr end
     | BrkS _ => PErr
     | RetS r_16 => r_16
-    | ExcS n_17 st_14 => match st_14 with [v_val_config; v_val; v_self] => (PList [(PExc n_17); v_self]) | _ => PErr end
+    | ExcS n_17 st_14 => match st_14 with [v_val_config; v_val; v_word; v_self] => (PList [(PExc n_17); v_self]) | _ => PErr end
     end))))) in
    (match p2_branch (p2_is_none v_state_cache) with
-   | BTrue => (py_bindh (fun n_32 => (PList [(PExc n_32); v_self])) (p2_setattr v_self "state" (PObj [])) (fun v_self =>
-   (k_36 v_self)))
-   | BFalse => (py_bindh (fun n_35 => (PList [(PExc n_35); v_self])) v_state_cache (fun a_33 =>
-   (py_bindh (fun n_34 => (PList [(PExc n_34); v_self])) (p2_setattr v_self "state" a_33) (fun v_self =>
-   (k_36 v_self)))))
-   | BExc n_36 => (PList [(PExc n_36); v_self])
+   | BTrue => (py_bindh (fun n_35 => (PList [(PExc n_35); v_self])) (p2_setattr v_self "state" (PObj [])) (fun v_self =>
+   (k_39 v_self)))
+   | BFalse => (py_bindh (fun n_38 => (PList [(PExc n_38); v_self])) v_state_cache (fun a_36 =>
+   (py_bindh (fun n_37 => (PList [(PExc n_37); v_self])) (p2_setattr v_self "state" a_36) (fun v_self =>
+   (k_39 v_self)))))
+   | BExc n_39 => (PList [(PExc n_39); v_self])
    | BErr => PErr
    end)))))))))))).
